@@ -88,6 +88,9 @@ impl JsonFile {
             .write_all(data.as_slice())
             .await
             .map_err(MetaSyncError::Io)?;
+        // tokio::fs::File completes a write in the background;
+        // wait for it before the file is moved into place.
+        tmp_file.flush().await.map_err(MetaSyncError::Io)?;
 
         rename(tmp_filename.as_str(), self.filename.as_str())
             .await
